@@ -217,3 +217,176 @@ def trace_from(o, rec, w):
     cols = [sg.x, sg.y, sg.z, sg.L, sg.M, sg.N, sg.intensity, sg.opd]
     recs = [[float(c[k, 0]) for c in cols] for k in range(cols[0].shape[0])]
     return ('ok', recs)
+
+
+# ----------------------------------------------------------------------------------------------
+# argument forms of Optic.trace_generic (the SAME rays written as Python ints, Python floats, integer-dtype arrays,
+# float arrays): the relations of the property must hold in every form, and every form denotes the same rays
+# ----------------------------------------------------------------------------------------------
+ARG_FORMS = ['float64_arrays', 'int64_arrays', 'int32_pupil_arrays+float64_field_arrays',
+             'int64_pupil_arrays+python_float_field_scalars', 'int64_pupil_arrays+python_int_field_scalars',
+             'int64_Py_array+python_int_Px_scalar+python_float_field_scalars', 'python_int_scalars_one_ray_per_call',
+             'python_float_scalars_one_ray_per_call']
+
+# pupil points that one writes as integers: the chief ray and the four rim rays; a tangential fan has Px = 0 throughout
+PUPIL_STAR = [(0, 0), (0, 1), (0, -1), (1, 0), (-1, 0)]
+PUPIL_FAN = [(0, -1), (0, 0), (0, 1)]
+
+
+def form_args(form, H, P):
+    """list of (Hx, Hy, Px, Py) argument tuples (one per trace_generic call) for field H = (Hx, Hy) (integers) and the
+    integer pupil points P, written in `form`; None when the form cannot express the batch"""
+    hx, hy = H
+    px, py = [p[0] for p in P], [p[1] for p in P]
+    k = len(P)
+    f64, i64, i32 = (lambda v: np.array(v, dtype=np.float64)), (lambda v: np.array(v, dtype=np.int64)), \
+        (lambda v: np.array(v, dtype=np.int32))
+    if form == 'float64_arrays':
+        return [(f64([hx] * k), f64([hy] * k), f64(px), f64(py))]
+    if form == 'int64_arrays':
+        return [(i64([hx] * k), i64([hy] * k), i64(px), i64(py))]
+    if form == 'int32_pupil_arrays+float64_field_arrays':
+        return [(f64([hx] * k), f64([hy] * k), i32(px), i32(py))]
+    if form == 'int64_pupil_arrays+python_float_field_scalars':
+        return [(float(hx), float(hy), i64(px), i64(py))]
+    if form == 'int64_pupil_arrays+python_int_field_scalars':
+        return [(int(hx), int(hy), i64(px), i64(py))]
+    if form == 'int64_Py_array+python_int_Px_scalar+python_float_field_scalars':
+        if len(set(px)) != 1:
+            return None
+        return [(float(hx), float(hy), int(px[0]), i64(py))]
+    if form == 'python_int_scalars_one_ray_per_call':
+        return [(int(hx), int(hy), int(a), int(b)) for a, b in P]
+    if form == 'python_float_scalars_one_ray_per_call':
+        return [(float(hx), float(hy), float(a), float(b)) for a, b in P]
+    raise ValueError(form)
+
+
+def trace_form(o, form, H, P, w):
+    """the rays (H, p) for p in P through o.trace_generic with the arguments written in `form`:
+    ('ok', [records of ray 0, records of ray 1, ...]) (records = 8 floats per surface incl. the launch),
+    ('err', type, msg), or None when the form cannot express the batch"""
+    calls = form_args(form, H, P)
+    if calls is None:
+        return None
+    out = []
+    sg = o.surface_group
+    for (a, b, c, d) in calls:
+        keep = [np.copy(v) if isinstance(v, np.ndarray) else v for v in (a, b, c, d)]
+        try:
+            o.trace_generic(a, b, c, d, w)
+        except Exception as e:   # noqa
+            return ('err', type(e).__name__, str(e)[:120])
+        for u, v in zip(keep, (a, b, c, d)):
+            if isinstance(u, np.ndarray) and (u.dtype != v.dtype or not np.array_equal(u, v)):
+                return ('err', 'CallerArrayModified', str(v)[:80])
+        cols = [np.asarray(c_, dtype=float) for c_ in (sg.x, sg.y, sg.z, sg.L, sg.M, sg.N, sg.intensity, sg.opd)]
+        nray = len(P) if len(calls) == 1 else 1
+        if any(c_.shape != (len(sg.surfaces), nray) for c_ in cols):
+            return ('err', 'RecordShape', str([c_.shape for c_ in cols]))
+        for j in range(nray):
+            out.append([[float(c_[k, j]) for c_ in cols] for k in range(cols[0].shape[0])])
+    return ('ok', out)
+
+
+def form_corpus():
+    """fixed all-ideal lenses with NON-integer pupil positions, pupil diameters, object distances and field heights
+    (what an integer container silently truncates): stop inside / on the first surface / behind the lens,
+    infinite and finite objects, both field types"""
+    def lens(surfs, obj, ap, ft, mf):
+        return {'object_thickness': obj, 'surfaces': surfs, 'aperture': ap, 'field_type': ft,
+                'fields': [[0.0, 0.0, 0.0, 0.0], [0.7 * mf, 0.0, 0.0, 0.0], [mf, 0.0, 0.0, 0.0]],
+                'wavelengths': [[0.5876, True]], 'telecentric': False}
+    trip = lambda: [
+        {'type': 'standard', 'radius': 24.3, 'thickness': 3.4, 'material': _ideal(1.61)},
+        {'type': 'standard', 'radius': -310.5, 'thickness': 5.7, 'material': 'air'},
+        {'type': 'standard', 'radius': -23.6, 'thickness': 1.1, 'material': _ideal(1.59)},
+        {'type': 'standard', 'radius': 21.9, 'thickness': 4.6, 'is_stop': True, 'material': 'air'},
+        {'type': 'standard', 'radius': 84.2, 'thickness': 3.1, 'material': _ideal(1.61)},
+        {'type': 'standard', 'radius': -19.7, 'thickness': 44.3, 'material': 'air'}]
+    front = lambda: [
+        {'type': 'standard', 'radius': 41.3, 'thickness': 4.4, 'is_stop': True, 'material': _ideal(1.55)},
+        {'type': 'standard', 'radius': -87.6, 'thickness': 71.9, 'material': 'air'}]
+    rear = lambda: [
+        {'type': 'standard', 'radius': 52.7, 'thickness': 5.2, 'material': _ideal(1.66)},
+        {'type': 'standard', 'radius': -61.4, 'thickness': 7.35, 'material': 'air'},
+        {'type': 'standard', 'radius': INF, 'thickness': 36.8, 'is_stop': True, 'material': 'air'}]
+    return [lens(trip(), INF, ['EPD', 9.3], 'angle', 13.0),
+            lens(front(), INF, ['EPD', 8.3], 'angle', 6.5),
+            lens(rear(), INF, ['EPD', 7.7], 'angle', 4.25),
+            lens(trip(), 183.6, ['EPD', 6.9], 'object_height', 17.3),
+            lens(rear(), 120.45, ['EPD', 7.1], 'angle', 3.5),
+            lens(trip(), INF, ['imageFNO', 5.6], 'angle', 9.5),
+            lens(rear(), 97.3, ['objectNA', 0.041], 'object_height', 6.45)]
+
+
+def all_ideal(spec):
+    return all(s.get('material', 'air') == 'air' or (isinstance(s['material'], list) and s['material'][0] == 'ideal')
+               for s in spec['surfaces']) and not any(s.get('dx') or s.get('dy') or s.get('rx') or s.get('ry')
+                                                      for s in spec['surfaces'])
+
+
+def independent_EPL(spec):
+    """position of the entrance pupil (paraxial image of the stop in object space) measured from surface 1, from the
+    numbers of the prescription alone: reduced-angle matrices (y, n u) from surface 1 to the stop plane,
+    M = [[A, B], [C, D]]; the axial object-space point whose rays reach the centre of the stop is at z = n0 B / A.
+    Lenses of air / ideal glass without mirrors only (None otherwise)"""
+    if not all_ideal(spec):
+        return None
+    k = [i for i, s in enumerate(spec['surfaces']) if s.get('is_stop')]
+    if len(k) != 1:
+        return None
+    n_of = lambda s: 1.0 if s.get('material', 'air') == 'air' else float(s['material'][1])
+    A, B, C, D = 1.0, 0.0, 0.0, 1.0
+    n1 = 1.0
+    for s in spec['surfaces'][:k[0]]:
+        n2 = n_of(s)
+        R = s.get('radius', INF)
+        phi = 0.0 if math.isinf(R) else (n2 - n1) / R
+        A, B, C, D = A, B, C - phi * A, D - phi * B           # refraction
+        tr = s['thickness'] / n2
+        A, B, C, D = A + tr * C, B + tr * D, C, D             # transfer to the next vertex
+        n1 = n2
+    if A == 0.0:
+        return None
+    return B / A
+
+
+def launch_oracle(spec, H, p, rec, epl):
+    """discrepancy (in lens units / direction cosines) between the launch record of ray (H, p), H = (0, Hy), and what the
+    prescription says about that ray, independent of where on its line the library starts it:
+    - the ray passes through the pupil point (Px EPD/2, Py EPD/2, EPL) (EPD prescribed) / the chief ray through (0, 0, EPL);
+    - object at infinity, angular field: direction (0, sin(Hy theta_max), cos(Hy theta_max));
+    - finite object: it starts in the object plane z = -object distance, at height |Hy| h_max (object_height fields) or
+      such that the chief ray makes the angle Hy theta_max with the axis (angular fields).
+    Returns (worst, which) or None when nothing can be said"""
+    if H[0] != 0 or epl is None or not all(math.isfinite(v) for v in rec[:6]):
+        return None
+    x0, y0, z0, Lc, Mc, Nc = rec[:6]
+    mf = max(abs(f[0]) for f in spec['fields'])
+    out = []
+    if Nc <= 0:
+        return (INF, 'launched backwards')
+    t = (epl - z0) / Nc
+    xp, yp = x0 + t * Lc, y0 + t * Mc
+    if spec['aperture'][0] == 'EPD' and not any(f[2] or f[3] for f in spec['fields']):
+        # (fields with vignetting factors compress the pupil: only the chief ray is prescribed)
+        epd = spec['aperture'][1]
+        out.append((max(abs(xp - p[0] * epd / 2), abs(yp - p[1] * epd / 2)), 'point in the pupil plane z = EPL'))
+    elif p == (0, 0):
+        out.append((max(abs(xp), abs(yp)), 'chief ray through the centre of the entrance pupil'))
+    inf = math.isinf(spec['object_thickness'])
+    if inf and spec['field_type'] == 'angle':
+        th = math.radians(H[1] * mf)
+        out.append((max(abs(Lc), abs(Mc - math.sin(th)), abs(Nc - math.cos(th))), 'direction of the field'))
+    if not inf:
+        zo = -spec['object_thickness']
+        out.append((abs(z0 - zo), 'launch from the object plane'))
+        if spec['field_type'] == 'object_height':
+            out.append((max(abs(x0), abs(abs(y0) - abs(H[1]) * mf)), 'object height'))
+        else:
+            th = math.radians(H[1] * mf)
+            out.append((max(abs(x0), abs(abs(y0) - abs(math.tan(th)) * (epl - zo))), 'object point of the field angle'))
+    if not out:
+        return None
+    return max(out, key=lambda e: e[0])
